@@ -8,6 +8,7 @@ import json
 import os
 import signal
 import sys
+import threading
 import time
 
 
@@ -152,8 +153,10 @@ def main(argv):
     orig_remote = base.load_csv_dataset_from_remote
     substitute = {"on": False}
 
+    tl = threading.local()
+
     def wrapper(remote, dataset_filename, dataset_folder, *a, **kw):
-        captured.append({"url": remote.url, "filename": remote.filename, "checksum": remote.checksum,
+        captured.append({"thread": getattr(tl, "idx", None), "url": remote.url, "filename": remote.filename, "checksum": remote.checksum,
                          "dataset_filename": dataset_filename, "dataset_folder": dataset_folder,
                          "kwargs": {k: (v if isinstance(v, (bool, int, float, str, type(None))) else repr(v))
                                     for k, v in kw.items()}})
@@ -250,6 +253,31 @@ def main(argv):
                     kw["unpack_dataset_columns"] = bool(step["unpack"])
                 data = base.load_csv_dataset_from_remote(remote, step.get("dataset_filename", "ds"),
                                                          step.get("folder", "folder"), **kw)
+            elif op == "parallel":
+                # several threads of ONE process load different names at the same time; the fake server holds every
+                # first response until all requests are in flight
+                substitute["on"] = True
+                names = step["names"]
+                net.hold = threading.Barrier(len(names))
+                outs = [None] * len(names)
+
+                def work(i):
+                    tl.idx = i
+                    try:
+                        outs[i] = {"outcome": "ok", "data": data_desc(ds.load_dataset(names[i]))}
+                    except BaseException as e:
+                        outs[i] = {"outcome": "exc", "exc_type": type(e).__name__, "exc_msg": str(e)[:300]}
+                ths = [threading.Thread(target=work, args=(i,)) for i in range(len(names))]
+                for t_ in ths:
+                    t_.start()
+                for t_ in ths:
+                    t_.join(timeout=60)
+                net.hold = None
+                for i, o in enumerate(outs):
+                    if o is not None:
+                        o["captured"] = [c for c in captured[c0:] if c.get("thread") == i]
+                res["parallel"] = outs
+                data = None
             elif op == "by_name":
                 substitute["on"] = bool(step.get("substitute", False))
                 if "unpack" in step:
